@@ -560,6 +560,12 @@ def run(idx: ProgramIndex, rep: Report, tier: str, selftest: bool = True):
 
     rep.rule("C07.P5", "hand-written _bilinear_derivative tuples follow the order of the recorded representation", floor=10)
     check_bilinear_layouts(idx, rep)
+    from .c07_bd import check_default_alignment, check_product_dependence
+
+    rep.rule("C07.P7", "the autograd default re-expands the gradients to one entry per representation element", floor=1)
+    check_default_alignment(idx, rep)
+    rep.rule("C07.P8", "in product-structured operators each hand-written gradient depends on every other factor", floor=3)
+    check_product_dependence(idx, rep)
 
     if selftest:
         from ..selftest import run_fixtures
